@@ -187,6 +187,8 @@ type Membership struct {
 	Gate      Gate
 	// FailFirst makes the first k RequestOrderedCommittee calls fail (engine R only).
 	FailFirst int
+	// PlainErr: a failing lookup reports "not available" even when its context has been cancelled (it does not wrap ctx.Err()).
+	PlainErr bool
 	// FailProofCommittee makes RequestCommitteeForBlockProof fail (a committee service that is down while the caller's context lives).
 	FailProofCommittee bool
 	mu                 sync.Mutex
@@ -211,7 +213,7 @@ func (m *Membership) RequestOrderedCommittee(ctx context.Context, h primitives.B
 		m.Gate("committee", ctx, h)
 	}
 	if fail {
-		if ctx.Err() != nil { // a consumer that honours its context
+		if ctx.Err() != nil && !m.PlainErr { // a consumer that honours its context and says so
 			return nil, ctx.Err()
 		}
 		return nil, errors.New("committee not available yet")
